@@ -126,3 +126,14 @@ func pipeScenarios(tier core.Tier) []*sched.Scenario {
 	}
 	return out
 }
+
+// largeBacklogScenario: one producer submits n values while nobody reads, then the consumer drains. It is executed for
+// the non-preemptive schedule family only (bound 0); it exists because "never blocks a writer on a slow reader" also
+// has to hold for backlogs far beyond what the exhaustive scenarios build (a high-water mark would only show there).
+func largeBacklogScenario(n int) *sched.Scenario {
+	sc := pipeSpec{N: n, SlowReader: true}.scenario()
+	sc.Name = fmt.Sprintf("pipe/large-backlog/n=%d", n)
+	sc.Horizon = 20*n + 1000
+	sc.StateCaching = false
+	return sc
+}
